@@ -21,6 +21,9 @@ from . import c06_world as W
 
 SPEC = tlc.SPECS / "faults"
 PAR = max(1, min(8, tlc.DEFAULT_WORKERS))      # concurrent TLC launches
+# short TLC runs: the C2 compiler and a GC thread per core cost more CPU than they save
+JVM_SHORT = {"_JAVA_OPTIONS": "-XX:TieredStopAtLevel=1 -XX:CICompilerCount=1 -XX:ParallelGCThreads=2"}
+JVM_LONG = {"_JAVA_OPTIONS": "-XX:ParallelGCThreads=2"}
 INVS = ["InvCrashQuiet", "InvUnaffected", "InvResumes", "InvPartition", "InvLoss", "InvLatency", "InvCapacity",
         "InvTraffic", "InvEndState"]
 
@@ -84,7 +87,8 @@ def model_check(chk, tier):
     def one(name, cst, timeout):
         cfg = tlc.write_cfg(wd / f"{name}.cfg", constants=cst, invariants=INVS)
         return tlc.run(SPEC / "FaultsMC.tla", cfg, label=f"C06_mc_{name}", timeout=timeout,
-                       workers=max(1, tlc.DEFAULT_WORKERS // PAR))
+                       workers=max(1, tlc.DEFAULT_WORKERS // PAR),
+                       env=JVM_SHORT if tier == "quick" or name.startswith("dev_") else JVM_LONG)
 
     cfgs = MC_QUICK if tier == "quick" else MC_THOROUGH
     for (mode, maxw, tmax, cancel) in cfgs:
@@ -112,7 +116,7 @@ def model_schedules(chk, tier):
         wd = tlc.workdir(f"C06_gen{n}")
         cfg = tlc.write_cfg(wd / "gen.cfg", next_="GenNext", constants=consts(mode, maxw, tmax, cancel))
         res = tlc.run(SPEC / "FaultsMC.tla", cfg, label=f"C06_gen{n}", extra=["-dump", str(wd / "states")],
-                      timeout=3000, workers=1)
+                      timeout=3000, workers=1, env=JVM_SHORT)
         states = list(tlc.parse_dump(wd / "states.dump"))
         (wd / "states.dump").unlink(missing_ok=True)
         return res, states
@@ -149,7 +153,7 @@ def validate(traces, dev, label, conform=True):
 
     def one(module, part, lab):
         return tlc.validate_traces(SPEC / module, part, label=lab, spec="TSpec", constants=consts_,
-                                   chunk=len(part) + 1, timeout=3000)
+                                   chunk=len(part) + 1, timeout=3000, extra_env=JVM_SHORT)
 
     jobs = [(one, "FaultsJudge.tla", part, f"{label}_j{n}") for n, part in enumerate(parts)]
     if conform:
@@ -225,13 +229,13 @@ def run(tier, seed, replay=None):
 
     scheds = model_schedules(chk, tier)
     chk.extra["model_schedules_total"] = len(scheds)
-    cap = 900 if tier == "quick" else len(scheds)
+    cap = 150 if tier == "quick" else 4000
     chosen = scheds if len(scheds) <= cap else rng.sample(scheds, cap)
     chk.exhaustive = len(chosen) == len(scheds)
     for i, (origin, sch) in enumerate(chosen):
         execute(sch, origin, W.TICKS[i % len(W.TICKS)], "control" if i % 3 == 2 else "fast")
         chk.replays += 1
-    n_rand = 500 if tier == "quick" else 12000
+    n_rand = 150 if tier == "quick" else 4000
     for i in range(n_rand):
         execute(W.random_schedule(rng), "random", W.TICKS[i % len(W.TICKS)], "control" if i % 4 == 3 else "fast")
 
